@@ -4,6 +4,8 @@
 
 import time
 import sys
+import math
+from decimal import Decimal
 from xml.etree import ElementTree
 import binascii
 import datetime
@@ -220,20 +222,50 @@ class Real(Type):
     def __init__(self, name):
         super(Real, self).__init__(name, 'REAL')
 
+    SPECIAL_VALUES = {
+        'PLUS-INFINITY': float('inf'),
+        'MINUS-INFINITY': float('-inf'),
+        'NOT-A-NUMBER': float('nan')
+    }
+
     def encode(self, data):
         data = float(data)
-        exponent = 0
-
-        while abs(data) >= 10:
-            data /= 10
-            exponent += 1
-
         element = ElementTree.Element(self.name)
-        element.text = '{}E{}'.format(data, exponent)
+
+        if math.isnan(data):
+            ElementTree.SubElement(element, 'NOT-A-NUMBER')
+        elif math.isinf(data):
+            ElementTree.SubElement(element,
+                                   'PLUS-INFINITY' if data > 0 else 'MINUS-INFINITY')
+        else:
+            # Shortest decimal string that reads back as the same
+            # float, moved to mantissa and exponent without any
+            # floating point arithmetic.
+            mantissa = Decimal(repr(data))
+            exponent = 0
+
+            if mantissa != 0 and not -5 < mantissa.adjusted() < 1:
+                exponent = mantissa.adjusted()
+                mantissa = mantissa.scaleb(-exponent)
+
+            mantissa = format(mantissa.normalize(), 'f')
+
+            if '.' not in mantissa:
+                mantissa += '.0'
+
+            element.text = '{}E{}'.format(mantissa, exponent)
 
         return element
 
     def decode(self, element):
+        if len(element) > 0:
+            try:
+                return self.SPECIAL_VALUES[element[0].tag]
+            except KeyError:
+                raise DecodeError(
+                    "Expected a REAL value, but got '{}'.".format(
+                        element[0].tag))
+
         return float(element.text)
 
 
